@@ -116,6 +116,36 @@ def hostile_pm1(r):
     return w.bytes(0)
 
 
+def rand_lz5(r, ncmd=None, half_copy=False):
+    """random -lz5- command stream (flag byte, 8 commands each); optionally the last copy command loses its second byte"""
+    n = ncmd if ncmd is not None else r.choice([1, 2, 5, 9, 20, 100])
+    cmds = []
+    for _ in range(n):
+        if r.random() < 0.5:
+            cmds.append(("lit", r.randrange(256)))
+        else:
+            cmds.append(("copy", r.randrange(4096), r.randrange(3, 19)))
+    if half_copy:
+        cmds.append(("half", r.randrange(256)))
+    out = bytearray()
+    for i in range(0, len(cmds), 8):
+        grp = cmds[i:i + 8]
+        flag = 0
+        body = bytearray()
+        for j, c in enumerate(grp):
+            if c[0] == "lit":
+                flag |= 1 << j
+                body.append(c[1])
+            elif c[0] == "copy":
+                body.append(c[1] & 0xff)
+                body.append(((c[1] >> 4) & 0xf0) | (c[2] - 3))
+            else:
+                body.append(c[1])
+        out.append(flag)
+        out += body
+    return bytes(out)
+
+
 def mutate(r, d):
     d = bytearray(d)
     if not d:
